@@ -9,6 +9,22 @@ package executor
 // parsedFrom(doc, key) && validated(doc)": Get may only return such entries, Add is only allowed for them.
 
 // ---------------------------------------------------------------- trusted: gqlparser, cache, user extensions
+//@ trusted github.com/vektah/gqlparser/v2/gqlerror.Errorf(message, args) (err)
+//@   ensures err != nil && local(err)
+//@   nopanic
+//@   pure
+// ForName is a deterministic, read-only lookup (gqlparser): modelled by the uninterpreted function forName.
+//@ trusted (github.com/vektah/gqlparser/v2/ast.OperationList).ForName(name) (op)
+//@   ensures op == forName(recv, name)
+//@   nopanic
+//@   pure
+//@ trusted fmt.Errorf(format, a) (err)
+//@   ensures err != nil
+//@   nopanic
+//@   pure
+//@ trusted dyn:graphql.Now() (t)
+//@   nopanic
+//@   pure
 //@ trusted github.com/vektah/gqlparser/v2/parser.ParseQueryWithTokenLimit(source, limit) (doc, err)
 //@   ensures err == nil ==> doc != nil && isParsedFrom(doc, source.Input)
 //@   ensures err != nil ==> isType(err, "*github.com/vektah/gqlparser/v2/gqlerror.Error")
